@@ -103,6 +103,17 @@ Theorem C19_ser_follows_rename : forall h v nm sp,
 Proof. exact ser_follows_rename. Qed.
 Print Assumptions C19_ser_follows_rename.
 
+(* deserialize_model . serialize_model = identity on the annotation state (IR >= 11): the proto holds only NAMES
+   (ModelProto.configuration, NodeProto.device_configurations of every node at every nesting depth — ser_model,
+   compared with the real ir.to_proto output on every run); rebuilding the annotations from the proto alone —
+   tensor_name through the scope stack of the node's graph, configuration_id through the deserialized
+   configurations — gives back exactly the state it was serialized from. *)
+Theorem C19_deser_ser_id : forall h p,
+  DevInv h -> rt_domain h = true -> MULTI_DEVICE_SUPPORTED_VERSION <= s_ir h ->
+  ser_model h = Ok p -> deser h p = h.
+Proof. exact deser_ser_id. Qed.
+Print Assumptions C19_deser_ser_id.
+
 (* to_proto ; from_proto at IR >= 11 resolves every serialized name back to the very object it came from:
    on a DevInv state inside the modelled domain (rt_domain: the wiring itself survives — names are non-empty and
    identify the values declared in each scope, and every input/output of every node, including values captured
